@@ -510,8 +510,18 @@ func genDeclCase(rt *rapid.T) (Case, []string) {
 		if w.n(1, "topVar") == 0 {
 			w.labels["top-level variable"] = true
 			fmt.Fprintf(&fo, "let tv%d = mk%d ()\n\n", k, k)
-			fmt.Fprintf(&goMain, "\tfmt.Println(\"tv%d\", %s(tv%d))\n", k, d, k)
+			// read through its address: only a package variable has one
+			fmt.Fprintf(&goMain, "\tptv%d := &tv%d\n\tfmt.Println(\"tv%d\", %s(*ptv%d))\n", k, k, k, d, k)
 			fmt.Fprintf(want, "tv%d %s\n", k, lang.Show(v1))
+		}
+		if w.n(3, "topFnVar") == 0 {
+			// a top-level let of the variable form whose value is a function: still a package variable,
+			// which hand-written Go may wrap (note.md: "only at the top level does it expand to a var")
+			w.labels["top-level variable holding a lambda"] = true
+			add := w.n(9, "fvAdd")
+			fmt.Fprintf(&fo, "let fv%d = fun (x:int) -> x + %d\n\nlet usefv%d (x:int) = fv%d (fv%d x)\n\n", k, add, k, k, k)
+			fmt.Fprintf(&goMain, "\t{\n\t\torig, n := fv%d, 0\n\t\tfv%d = func(x int) int { n++; return orig(x) }\n\t\tfmt.Println(\"fv%d\", usefv%d(1), n)\n\t}\n", k, k, k, k)
+			fmt.Fprintf(want, "fv%d %d 2\n", k, 1+2*add)
 		}
 		// (b) Go makes through the documented names, Folang shows
 		if w.printable(t, false) {
